@@ -168,7 +168,7 @@ def self_describing(cont, model, cfg, ctx):
 def run(tier, seed):
     q = tier == "quick"
     cfg = make_cfg(seed, 1 if q else 2)
-    depth = {"h5": 2 if q else 3, "ih5": 2 if q else 3}
+    depth = {"h5": 3 if q else 4, "ih5": 2 if q else 3}
     budget = 170 if q else 2400
     t0 = time.time()
     fam, violations, samples = {}, [], []
